@@ -44,7 +44,7 @@ def decorate(rng, node, depth=0):
             flag["params"]["default"] = False
         sch["fields"].insert(rng.randrange(len(sch["fields"]) + 1), flag)
     if rng.random() < 0.5:
-        sch["validators"] = [rng.choice(["pass"] * 8 + ["fail", "boom"]) for _ in range(rng.choice([1, 1, 2, 3]))]
+        sch["validators"] = [rng.choice(["pass"] * 8 + ["fail", "boom", "fail-ve"]) for _ in range(rng.choice([1, 1, 2, 3]))]
         if len(sch["validators"]) > 1 and rng.random() < 0.5:
             sch["shared_decorator"] = True
             rng.shuffle(sch["validators"])
@@ -175,7 +175,7 @@ def walk_unmet(node, values, path, out, disabled_out):
                 if isinstance(it, dict):
                     walk_unmet(ch["item"], it, "%s[%d]" % (p, i), out, disabled_out)
     for vs in sch.get("validators", ()):
-        if vs in ("fail", "boom"):
+        if vs in ("fail", "boom", "fail-ve"):
             out.append(("schema-validator", path, "schema validator (%s) of %r cannot have passed" % (vs, path or "<root>")))
 
 
@@ -187,7 +187,7 @@ def own_unmet_of_disabled(node, values, path, out, inside_disabled=False):
         for ch in sch["fields"]:
             if ch["kind"] == "field" and ch.get("params", {}).get("required") and model.empty_required(ch, values.get(ch["key"])):
                 out.append(path + "." + ch["key"])
-        if any(v in ("fail", "boom") for v in sch.get("validators", ())):
+        if any(v in ("fail", "boom", "fail-ve") for v in sch.get("validators", ())):
             out.append(path + ":schema-validator")
     for ch in sch["fields"]:
         if ch["kind"] in ("schema", "ctype") and isinstance(values.get(ch["key"]), dict):
